@@ -287,7 +287,7 @@ def r2_r3_greedy_loop(ctx: Context, rule2="C13.R2", rule3="C13.R3") -> None:
             return False
         # a `continue` skips a task (task loop) or an option (strategy / pool loops) unless it follows an exhausted search
         for c in [x for x in ast.walk(ast.Module(body=g.loop.body, type_ignores=[])) if isinstance(x, ast.Continue)
-                  and not (_own_loop(x) is not g.loop and _after_exhausted_search(x))]:
+                  and not (_own_loop(x) is not g.loop and (_after_exhausted_search(x) or cg.edge_dominates(ft, "F", cg.node_of(x))))]:
             cn = cg.node_of(c)
             ok = any(t.kind == "test" and "enforce_deadlines" in norm(t.ast) and cg.edge_dominates(t, "T", cn) for t in cg.nodes)
             ctx.check(ok, rule3, f"{g.q}|continue at line {c.lineno} only for the deadline cancellation", loc(c), "cancellation branch",
